@@ -19,6 +19,7 @@ import (
 
 	"github.com/efficientgo/core/errors"
 
+	"github.com/thanos-community/promql-engine/api"
 	"github.com/thanos-community/promql-engine/engine"
 	"github.com/thanos-community/promql-engine/execution/parse"
 	"github.com/thanos-community/promql-engine/logicalplan"
@@ -37,6 +38,7 @@ type planCase struct {
 	Oracle   string `json:"oracle,omitempty"`   // direct-oracle failure (property violated on the real code), "" = none
 	RefOK    bool   `json:"ref_ok"`             // the reference engine accepts the query
 	NativeExec string `json:"native_exec,omitempty"`
+	Dist       bool   `json:"distributed,omitempty"` // distributed engine over remote engines without fallback
 }
 
 func argFor(t parser.ValueType, variant int) string {
@@ -161,6 +163,8 @@ func c08Positions(q string, t parser.ValueType) []string {
 			"("+q+") and foo", "sort("+q+")",
 			// in the parameter of an aggregation
 			"quantile(scalar("+q+"), foo)", "topk(scalar("+q+"), foo)", "bottomk by (a) (scalar("+q+"), foo)",
+			// ... and in the first argument of histogram_quantile
+			"histogram_quantile(scalar("+q+"), foo)",
 		)
 	case parser.ValueTypeScalar:
 		out = append(out,
@@ -265,6 +269,17 @@ func cmdPlan(args []string) {
 		return engPair{engine.New(engine.Opts{EngineOpts: eo, DisableFallback: !fb}), reg}
 	}
 	engOn, engOff := mkEng(true), mkEng(false)
+	// a distributed engine (fallback enabled) whose remote engines have the fallback disabled: what a
+	// remote engine cannot run must be found out when the distributed query is created, too
+	mkDist := func() engPair {
+		reg := prometheus.NewRegistry()
+		eo := promOpts(EngineCfg{})
+		eo.Reg = reg
+		ropts := engine.Opts{EngineOpts: promOpts(EngineCfg{}), DisableFallback: true}
+		remotes := []api.RemoteEngine{engine.NewLocalEngine(ropts, store), engine.NewLocalEngine(ropts, NewStore(nil))}
+		return engPair{engine.NewDistributedEngine(engine.Opts{EngineOpts: eo}, api.NewStaticEndpoints(remotes)), reg}
+	}
+	engDist := mkDist()
 	ref := promql.NewEngine(promOpts(EngineCfg{}))
 	for _, rng := range []bool{false, true} {
 		for _, qs := range queries {
@@ -272,9 +287,9 @@ func cmdPlan(args []string) {
 			if err != nil {
 				continue
 			}
-			var obs [2]planCase
-			for k, ep := range []engPair{engOn, engOff} {
-				fb := k == 0
+			var obs [3]planCase
+			for k, ep := range []engPair{engOn, engOff, engDist} {
+				fb := k != 1
 				f0, t0 := counterValues(ep.reg)
 				var q promql.Query
 				var err error
@@ -284,7 +299,7 @@ func cmdPlan(args []string) {
 					q, err = ep.eng.NewInstantQuery(store, nil, qs, end)
 				}
 				f1, t1 := counterValues(ep.reg)
-				pc := planCase{ID: len(cases), Query: qs, Range: rng, Fallback: fb, Outcome: classifyCreate(q, err), DFalse: f1 - f0, DTrue: t1 - t0}
+				pc := planCase{ID: len(cases), Query: qs, Range: rng, Fallback: fb, Dist: k == 2, Outcome: classifyCreate(q, err), DFalse: f1 - f0, DTrue: t1 - t0}
 				if err != nil {
 					pc.ErrText = err.Error()
 				}
